@@ -260,6 +260,15 @@ func (g *gen) doSendVote(m *voteMsg, judge bool) (res tmconsensus.HandleVoteProo
 
 func (g *gen) doSendVoteHeld(m *voteMsg, judge bool, hold *voteHold) (res tmconsensus.HandleVoteProofsResult, ok bool) {
 	judgeInvalid := judge && g.mo != nil && !m.anyValid() && len(m.proofs) > 0
+	if judgeInvalid && m.desc == "previous-height-validator-set" {
+		// For a height the node has not reached, the validator set is not determined yet;
+		// the node can only go by the set the message names. Whether it keeps such votes is
+		// not judged; for heights it has reached it knows the set and must refuse them.
+		if vh, _, _, _, okp := g.n.pos(); !okp || m.h > vh {
+			judgeInvalid = false
+			g.cs.count("unjudged.vote-by-another-known-set-for-a-height-not-reached")
+		}
+	}
 	var before string
 	if judgeInvalid {
 		before, judgeInvalid = g.mo.stateDigest(m.h, m.r)
@@ -669,8 +678,24 @@ func (g *gen) attackVote(kind string, h uint64, r uint32) *voteMsg {
 		return out
 	}
 
-	att := g.pick(16)
+	att := g.pick(17)
 	switch att {
+	case 16: // signed by the previous height's validator set, labelled with that set's hash
+		// (a stale peer, or validators the last block removed); nothing here is valid for
+		// this height unless the two sets share a key at the same index
+		m.desc = "previous-height-validator-set"
+		prev := g.w.set(h - 1)
+		if h <= g.w.initH+1 || string(prev.vs.PubKeyHash) == string(set.vs.PubKeyHash) {
+			prev = g.w.foreignSet(n)
+		}
+		m.hashOK = false
+		m.pubKeyHash = string(prev.vs.PubKeyHash)
+		hash := tgt()
+		for _, i := range g.randSubset(prev.n(), 70) {
+			sig := g.w.sign(prev.keys[i], kind, h, r, hash)
+			valid := i < n && string(set.keys[i].pub) == string(prev.keys[i].pub)
+			add(hash, gcrypto.SparseSignature{KeyID: be16(i), Sig: sig}, sigMeta{i, valid, "prevset"})
+		}
 	case 0: // valid votes for an unknown hash
 		m.desc = "valid-unknown-hash"
 		hash := g.randHash()
